@@ -9,6 +9,7 @@ use std::collections::btree_set;
 verus! {
 global size_of usize == 8;
 //@include prelude/std_contracts.rs
+//@include prelude/iter_wrappers.rs
 //@include prelude/list_core_std.rs
 //@include prelude/list_ops_std.rs
 
